@@ -13,7 +13,7 @@ EXTENDS Integers
 CallTok(c)  == CASE c \in {1, 12, 14, 15, 19, 23, 24} -> "S"
                  [] c \in {2, 3, 4, 5, 6, 9, 10, 13, 18} -> "B"
                  [] c \in {7, 11} -> "D"
-                 [] c \in {8, 22, 25} -> "Q"
+                 [] c \in {8, 22, 25, 28, 29} -> "Q"
                  [] OTHER -> "-"
 CallNeeds(c) == CASE c \in (1..6) \cup {18, 19, 22, 23, 24, 25} -> 1  [] c \in {7, 8} -> 0  [] OTHER -> -1
 Rejected(c) == c \in {9, 10, 11}
